@@ -2321,6 +2321,13 @@ ure_exec(ure_dfa_t dfa, int flags, ucs2_t *text, unsigned long textlen,
 	 * If the last state was not accepting, then reset
 	 * and start over.
 	 */
+	/*
+	 * zvbi: start over right after the position where the failed
+	 * attempt began, not after the character which ended it, or
+	 * "ab" is not found in "aab".
+	 */
+	if (ms != (unsigned long) ~0)
+	  sp = text + ms + 1;
 	stp = dfa->states;
 	ms = me = ~0;
       } else
